@@ -112,7 +112,13 @@ func c17Direct(c c17cfg) *Unit {
 		for i := range letters {
 			picks[i] = all[i][vsched.Choose(len(all[i]), "chunking")]
 			if c.errorOnly {
-				kinds[i] = vsched.Choose(3, "outcome")
+				// (thread 0 may also end cancelled; one cancelled command next to an ordinary one is the
+				// case that matters, and three outcomes for every thread do not fit the quick budget)
+				nk := 2
+				if i == 0 {
+					nk = 3
+				}
+				kinds[i] = vsched.Choose(nk, "outcome")
 				fails[i] = kinds[i] != 0
 			}
 			x.Aux[fmt.Sprintf("in%d", i)] = fmt.Sprintf("%q fail=%v", picks[i].chunks, fails[i])
